@@ -3,9 +3,9 @@ import engine_common as ec
 import engine_plugin as ep
 
 ID = "C15"
-LEAN_MODULES = ["HgVerif.Props.C15", "HgVerif.Props.C02Fail", "HgVerif.Model.Engine", "HgVerif.Model.Extracted"]
+LEAN_MODULES = ["HgVerif.Props.C15", "HgVerif.Props.C02Fail", "HgVerif.Props.C15Flow", "HgVerif.Model.Engine", "HgVerif.Model.Extracted"]
 THEOREMS = ["HgVerif.Tie.tie_resumeChecksFailed", "HgVerif.Sched.failed_cycle_restarts", "HgVerif.Sched.stale_cursor_skips_prefix",
-            "HgVerif.Sched.fresh_cycle_scans_all", "HgVerif.Sched.armed_wakeup_survives_failure", "HgVerif.Tie.tie_failKeepsWakeups", "HgVerif.Sched.fresh_when_cursor_zero", "HgVerif.Sched.stale_cursor_witness"]
+            "HgVerif.Sched.fresh_cycle_scans_all", "HgVerif.Sched.armed_wakeup_survives_failure", "HgVerif.Tie.tie_failKeepsWakeups", "HgVerif.Flow.sol_agree_on", "HgVerif.Flow.cycle_noninterference", "HgVerif.Flow.idle_cycle_keeps", "HgVerif.Sched.fresh_when_cursor_zero", "HgVerif.Sched.stale_cursor_witness"]
 CXX_TARGETS = ["hgv_engine"]
 USES_EXTRACT = True
 RULE = ("generated programs with a capturing node (exception_time_series) or a try_except-wrapped chain sub-graph whose "
@@ -17,7 +17,11 @@ TECHNIQUE = ("Lean 4 proof about the graph scan's cursor/resume rule (a failed e
              "the pre-fix rule) + translator tie on the resume predicate + differential correspondence of the engine model against "
              "the compiled runtime, with a denotational reference monitor")
 LEVEL_TEXT = ("Kernel-checked: after a failed (captured) evaluation the next evaluation of that graph is a fresh full scan "
-              "(later_cycles_normal), for arbitrary node behaviours; the pre-fix rule provably skips the prefix (witness). The executable "
+              "(later_cycles_normal), for arbitrary node behaviours; the pre-fix rule provably skips the prefix (witness); the wake-ups "
+              "pending beside the failing node survive (armed_wakeup_survives_failure, after fix F5). Non-interference for flat "
+              "dataflows with arbitrary node functions: whatever the nodes outside a producer-closed set U compute (fail, succeed, "
+              "schedule), every node of U ends each cycle with the same state and the same schedule slot, and a cycle it does not take "
+              "part in is invisible to it (cycle_noninterference, idle_cycle_keeps). The executable "
               "engine model (same Sched.cycle definition) is compared trace-for-trace with the real runtime on generated "
               "programs, and every implementation trace is checked against a dataflow reading that demands one error tick in "
               "the failing cycle, undisturbed independent streams and normal later cycles.")
